@@ -269,7 +269,7 @@ func runAfter(c *core.Ctx, t tcase) {
 // afterCases: complete requests on sources of every kind, the options given in every way.
 func afterCases(c *core.Ctx, invoices []source) []tcase {
 	var out []tcase
-	n := c.Pick(40, 400)
+	n := c.Pick(96, 800)
 	for i := 0; i < n; i++ {
 		s := invoices[c.Rng.Intn(len(invoices))]
 		env, err := parseEnv(s.data)
